@@ -82,8 +82,12 @@ impl<T: Debug + Clone + Ord + 'static> BooleanFunction<T> for Expression<T> {
     }
 
     fn derivative(&self, variables: BTreeSet<T>) -> Self {
-        self.restrict(&btreeset_to_valuation(variables.clone(), false))
-            ^ self.restrict(&btreeset_to_valuation(variables, true))
+        variables.into_iter().fold(self.clone(), |acc, variable| {
+            acc.restrict(&btreeset_to_valuation(
+                BTreeSet::from([variable.clone()]),
+                false,
+            )) ^ acc.restrict(&btreeset_to_valuation(BTreeSet::from([variable]), true))
+        })
     }
 
     fn is_equivalent(&self, other: &Self) -> bool {
